@@ -22,7 +22,7 @@ Extraction "../driver/model.ml"
   Order.ordered_frames Order.extract_rpus Order.inject_rpus
   Stream.run_stream Stream.assign_indices Stream.ps0 Stream.remove_hdr10plus Stream.parse_sei_rbsp
   RpuFile.parse_rpu_file RpuFile.write_rpu_file
-  Splitter.split_whole Splitter.parse_nalus Splitter.read_file
+  Splitter.split_whole Splitter.parse_nalus Splitter.read_file Splitter.read_stdin
   GeneratorPrec.uniq_check
   Ops.convert_with_mode Ops.mode_of_u8 Ops.mode_of_cli Ops.set_modified
   N.add N.mul N.div N.modulo N.of_nat N.to_nat Z.of_N Z.to_N Z.opp N.eqb.
